@@ -125,6 +125,24 @@ def gen_tgt(rng, refpos, cls):
         r = rng.random()
         if r < 0.1:
             out.append(list(rng.choice(refpos)))              # exactly on a reference atom
+        elif r < 0.2 and len(refpos) >= 2:
+            # almost on the bisecting plane of two reference atoms: the distances differ by 10^-6.5 … 10^-10
+            # (far above rounding, far below any "tidy" tolerance), the closer atom being either one — the
+            # anchor must still be the strictly closest one (seed C01-3: distances rounded before sorting)
+            ia, ib = rng.sample(range(len(refpos)), 2)
+            A, B = refpos[ia], refpos[ib]
+            u = [B[k] - A[k] for k in range(3)]
+            L = math.sqrt(sum(c * c for c in u))
+            if L < 1e-9:
+                out.append(list(A))
+                continue
+            u = [c / L for c in u]
+            w = _rand_dir(rng)
+            dot = sum(w[k] * u[k] for k in range(3))
+            w = [w[k] - dot * u[k] for k in range(3)]
+            h = rng.uniform(0.0, 0.3)
+            eps = rng.choice([-1, 1]) * 10 ** -rng.uniform(6.5, 10)
+            out.append([(A[k] + B[k]) / 2 + h * w[k] + eps * u[k] for k in range(3)])
         elif r < 0.25 and cls == "lattice":
             out.append([0.25 * rng.randint(-3, 3) + 0.125 for _ in range(3)])   # distance ties
         else:
@@ -201,6 +219,10 @@ def arg_positions(case):
         return pos.copy()
     if mode == "rigid":
         R = rotation(case["axis"], case["theta"])
+        if case.get("to_origin"):
+            # the motion that brings atom 0 EXACTLY to the origin (what move_to([0,0,0]) does for a bead)
+            P = pos @ R.T
+            return P - P[0]
         return pos @ R.T + np.array(case["t"], dtype=float)
     if mode == "deform":
         return np.array(case["newpos"], dtype=float)
@@ -226,10 +248,21 @@ def run_impl(ctx, case):
     np.random.seed(case.get("seed", 0))
     ident = case.get("ident", "fresh")
     with RandRecorder() as rec, np.errstate(all="ignore"):
+        a0 = ref.copy()          # the construction configuration, as an independent object
         emap = ExchangeMap(ref, tgt, case["s"])
         nb = len(rec.draws)
-        a0 = ref.copy()
-        out0 = emap(a0).atoms_positions.copy()
+        # the molecules the map was built from are changed IN PLACE before the map is used for the first time:
+        # the projections are fixed at construction ("p the atom's position at construction"), so nothing may
+        # change (seed C01-4: construction deferred to the first use reads the moved molecules)
+        pre = case.get("premut") or ("before-first-call" if (case.get("seed", 0) // 2) % 3 == 0 else "none")
+        ctx.count("premut:" + pre)
+        if pre == "before-first-call":
+            tgt.atoms_positions = tgt.atoms_positions[::-1] * 0.73 + np.array([0.9, -1.1, 0.4])
+            ref.atoms_positions = ref.atoms_positions[::-1] * 1.21 + np.array([-0.6, 0.8, 1.3])
+            ref_before = ref.atoms_positions.copy()
+            tgt_before = tgt.atoms_positions.copy()
+        res0 = emap(a0)          # kept alive: a later call must not change what it returned
+        out0 = res0.atoms_positions.copy()
         # history: the map is also used on an unrelated conformation of the species before the call
         # under test (what a system extrapolation does for every molecule)
         # — or not: a shortcut keyed on "same object as last time" is only visible when NO other molecule is
@@ -263,7 +296,8 @@ def run_impl(ctx, case):
     for a, ts in eq.items():
         for t in ts:
             equiv[t] = a
-    return {"equiv": equiv, "out0": out0, "out": out, "argpos": arg_before,
+    earlier_intact = bool(res0.atoms_positions.tobytes() == out0.tobytes())
+    return {"equiv": equiv, "out0": out0, "out": out, "argpos": arg_before, "earlier_intact": earlier_intact,
             "draws_build": rec.draws[:nb], "draws_call0": rec.draws[nb:n0], "draws_call": rec.draws[n0:],
             "inputs_unchanged": bool(np.array_equal(ref_before, ref.atoms_positions)
                                      and np.array_equal(tgt_before, tgt.atoms_positions)
